@@ -225,13 +225,17 @@ SinkTreeLaws(exp, obs) ==
   ELSE IF HasAdapter(exp) THEN {<<"C11", "room_exact">>, <<"C12", "adapter_inner_advanced">>} ELSE {<<"C11", "room_exact">>}
 
 \* a write of the byte sequence s
+\* (through an adapter the same facts are C12's: "limit(n) accepts at most n bytes", "chain(a, b)
+\* writes all of a and then b")
 WriteLaws(T, e, s) ==
-  LET ok == e.out = "ok" T2 == e.tree IN
+  LET ok == e.out = "ok" T2 == e.tree
+      W(l) == IF HasAdapter(T) THEN {<<"C11", l>>, <<"C12", "adapter_bounds">>} ELSE {<<"C11", l>>}
+  IN
   IF Len(s) <= Room(T)
-  THEN (IF ok THEN SinkTreeLaws(WriteTree(T, s), T2) ELSE {<<"C11", "fitting_write_ok">>})
-  ELSE (IF ok THEN {<<"C11", "overflow_panics">>}
+  THEN (IF ok THEN SinkTreeLaws(WriteTree(T, s), T2) ELSE W("fitting_write_ok"))
+  ELSE (IF ok THEN W("overflow_panics")
         \* a write that does not fit writes nothing: the target still has its room and contents
-        ELSE IF T2.k = "gone" \/ (Room(T2) = Room(T) /\ Written(T2) = Written(T)) THEN {} ELSE {<<"C11", "failed_write_untouched">>})
+        ELSE IF T2.k = "gone" \/ (Room(T2) = Room(T) /\ Written(T2) = Written(T)) THEN {} ELSE W("failed_write_untouched"))
 
 MutStep(T, e) ==
   LET n == e.n
